@@ -3,6 +3,9 @@ from __future__ import annotations
 
 import itertools
 import random
+import re
+
+_WORD = re.compile(r"\b[ABC]\b")
 
 CONSTS = ["-1", "0", "1", "2"]
 CMPS = ["=", "<>", "<", "<=", ">", ">="]
@@ -79,7 +82,7 @@ def templates(rnd: random.Random, per_template: int):
         for a, b, c in combos[:per_template]:
             def w(s):
                 return s if s.isalpha() else "(" + s + ")"
-            out.append(t.replace("A", "\0").replace("B", "\1").replace("C", "\2").replace("\0", w(a)).replace("\1", w(b)).replace("\2", w(c)))
+            out.append(_WORD.sub(lambda m: w({"A": a, "B": b, "C": c}[m.group(0)]), t))
     return out
 
 
